@@ -117,4 +117,5 @@ func genMore(outDir string) {
 	genGamm(outDir)
 	genTwap(outDir)
 	genIncentives(outDir)
+	genGammMath(outDir)
 }
